@@ -7,6 +7,7 @@ require (
 	github.com/anishathalye/porcupine v1.3.0
 	github.com/bytecodealliance/wasmtime-go v0.37.0
 	github.com/cbergoon/merkletree v0.2.0
+	github.com/coreos/etcd v3.3.18+incompatible
 	github.com/ethereum/go-ethereum v1.10.8
 	github.com/libp2p/go-libp2p-core v0.5.6
 	github.com/meshplus/bitxhub v0.0.0
